@@ -121,10 +121,15 @@ def create_import_function(report: Report, sandbox):
             raise RuntimeError("You cannot import pedal!")
         elif report.submission and filename in report.submission.files:
             if module_name not in sys.modules:
-                contents = report.submission.files[filename]
-                module = sandbox._import(contents, module_name, filename, sandbox.threaded)
-                # Like a real import, only execute the file once per execution;
-                # sys.modules is patched, so this entry is dropped afterwards.
+                # Like a real import, only execute the file once per run of the
+                # program; sys.modules is patched, so this entry is dropped
+                # after the execution and the sandbox remembers the module for
+                # later calls into the same program.
+                module = sandbox._student_modules.get(module_name)
+                if module is None:
+                    contents = report.submission.files[filename]
+                    module = sandbox._import(contents, module_name, filename, sandbox.threaded)
+                    sandbox._student_modules[module_name] = module
                 sys.modules[module_name] = module
                 return module
         return ORIGINAL_BUILTINS['__import__'](module_name, globals, locals, fromlist, level)
